@@ -145,12 +145,27 @@ class FixedDatesPreComputation(Lemma):
         it = vc.interp
         counts, normals = [], []
 
-        def nb_jump_dt(it_, f, b):
-            x = vc.fresh("N", "i")
-            vc.assume(x >= 0)
-            counts.append((x, b["dt"]))
-            return x
-        it.hooks[LP + "LevyProcess.nb_jump_dt"] = nb_jump_dt
+        # the Poisson variates are abstract at the level of the generator (nb_jump_dt runs from its real body): a generator
+        # built with mean m returns, per call of sample(size), `size` fresh counts recorded with m / lambda = the interval
+        lam = vc.real("jump_intensity")
+        vc.assume(lam > 0)
+        it.hooks[LP + "LevyProcess.intensity"] = lambda it_, f, b: lam
+        PO = "rpylib.distribution.univariate.poisson:Poisson"
+
+        def po_init(it_, f, b):
+            b["self"].fields["mean"] = b["lam"]
+
+        def po_sample(it_, f, b):
+            size = int(b.get("size", 1))
+            out = []
+            for _ in range(size):
+                x = vc.fresh("N", "i")
+                vc.assume(x >= 0)
+                counts.append((x, b["self"].fields["mean"] / lam))
+                out.append(x)
+            return np.array(out, dtype=object)
+        it.hooks[PO + ".__init__"] = po_init
+        it.hooks[PO + ".sample"] = po_sample
 
         def normal(it_, *a, size=None, **k):
             shape = tuple(int(v) for v in (size if isinstance(size, (tuple, list)) else (size,)))
@@ -191,7 +206,22 @@ class FixedDatesPreComputation(Lemma):
         np.random.seed(2)
         sim.pre_computation(3, P())
         ok = np.allclose(np.asarray(sim._sqrt_dts) ** 2, np.diff(ts)) and np.allclose(sim._times, ts) and len(sim._poisson_rv) == 3 and len(sim._brownian_increments) == 3
-        return (not ok, {"time_grid": ts.tolist(), "stored_scales_squared": (np.asarray(sim._sqrt_dts) ** 2).tolist(), "interval_lengths": np.diff(ts).tolist()})
+        info = {"time_grid": ts.tolist(), "stored_scales_squared": (np.asarray(sim._sqrt_dts) ** 2).tolist(), "interval_lengths": np.diff(ts).tolist()}
+        if ok and n >= 2:
+            # a REGULAR grid too: the jump counts of one path are independent draws per interval -- over 200 paths with 1.5
+            # jumps per interval on average they cannot all be constant along the path
+            tr = np.linspace(0.0, 0.3 * n, n + 1)
+
+            class PR:
+                def times_grid(self):
+                    return tr
+            sim2 = LPm.SimulationFixedTimes(LPm.LevyProcess(m))
+            sim2.pre_computation(200, PR())
+            rows = np.array([list(r) for r in sim2._poisson_rv])
+            constant = int(np.sum(np.all(rows == rows[:, :1], axis=1)))
+            info.update({"regular_time_grid": tr.tolist(), "paths": 200, "paths_whose_jump_counts_are_the_same_in_every_interval": constant})
+            ok = constant < 200
+        return (not ok, info)
 
 
 class CoupledJumpTimesPath(Lemma):
@@ -501,6 +531,9 @@ class BuildFinerGrid(Lemma):
             ot, ov, ow = as_list(out[0]), as_list(out[1]), as_list(out[2])
         m = len(ot)
         vc.check(nm + "::one-value-per-time", len(ov) == m and (ow is None or len(ow) == m))
+        if m < n:       # fewer points than jumps: a jump was dropped (nothing further can be stated on this path)
+            vc.check(nm + "::every-original-point-is-kept", False)
+            return
         steps = [ot[0]] + [b - a for a, b in zip(ot, ot[1:])] + [T - ot[-1]]      # the caller appends the maturity
         vc.check(nm + "::times-strictly-increasing-and-positive", And(*[s > 0 for s in steps]))
         vc.check(nm + "::every-step-at-most-epsilon", And(*[s <= eps for s in steps]))
@@ -522,6 +555,8 @@ class BuildFinerGrid(Lemma):
         eps, T = f(model.get("epsilon"), 0.1), f(model.get("maturity"), 1.0)
         tm = model.get("t") if isinstance(model.get("t"), list) else []
         ts = np.array([f(tm[k] if k < len(tm) else None, 0.25 * (k + 1)) for k in range(n)])
+        if not (np.all(np.diff(np.concatenate(([0.0], ts, [T]))) > 0)):
+            ts = np.array([T * (k + 1) / (n + 1) for k in range(n)])
         vs = np.array([1.0 + k for k in range(n)])
         if impl == "levyprocess":
             from rpylib.process.levyprocess import SimulationMaximumStep
@@ -595,27 +630,38 @@ class ChainRunningSum(Lemma):
     """MCSimulation.helper_simulate_markov_chain + MCSimulationFixedTimes.project / MCSimulationWithJumpTimes.simulate_jumps:
     the jump component carries the running sum of ALL state values sampled so far (across product dates)."""
     prop = "C15"
-    cases = tuple((mode, c) for mode in ("fixed-dates", "jump-times") for c in ((2,), (2, 1), (1, 0, 2)))
+    HISTORY = "after another chain on another grid"
+    cases = tuple((mode, c) for mode in ("fixed-dates", "jump-times") for c in ((2,), (2, 1), (1, 0, 2))) + \
+        tuple((mode, c, "after another chain on another grid") for mode in ("fixed-dates", "jump-times") for c in ((2, 1),))
 
     def __init__(self):
         self.name = "property:chain-jump-component-is-a-running-sum"
 
     def prove(self, vc, case):
-        mode, counts = case
-        nm = f"{self.name}[{mode},{counts}]"
+        mode, counts = case[0], case[1]
+        history = len(case) > 2
+        nm = f"{self.name}[{mode},{counts}{',' + case[2] if history else ''}]"
         it = vc.interp
         helper = it.get_function(MK + "MCSimulation.helper_simulate_markov_chain")
         drawn = []
+        state = {"n": 0}
 
         def sampling(it_, *a, size=None, **k):
-            idx = list(range(len(drawn), len(drawn) + int(size)))
-            drawn.extend(fresh_list(vc, "X", int(size)))
+            idx = list(range(state["n"], state["n"] + int(size)))
+            state["n"] += int(size)
             return idx                                  # the j-th sampled state increment is the token j
         samp = it.lib.Model(sampling, "sampling")
-        # grid[pivot + increment] -> the value of the sampled state: origin coordinate 0, state token j -> symbol X_j
-        grid = vc.obj("rpylib.grid.spatial:CTMCGrid", origin_coordinate=0)
-        it.hooks["rpylib.grid.grid:Grid.__getitem__"] = lambda it_, f, b: drawn[[v for k_, v in b.items() if k_ != "self"][0]]
+        # grid[pivot + increment] -> the value of the sampled state ON THAT GRID: origin coordinate 0, state token j -> symbol X_j
+        grid = vc.obj("rpylib.grid.spatial:CTMCGrid", origin_coordinate=0, tag="this")
+        other = vc.obj("rpylib.grid.spatial:CTMCGrid", origin_coordinate=0, tag="other")
+        per_grid = {"this": fresh_list(vc, "X", sum(counts) + 1), "other": fresh_list(vc, "Y", sum(counts) + 1)}
+        it.hooks["rpylib.grid.grid:Grid.__getitem__"] = lambda it_, f, b: per_grid[b["self"].fields["tag"]][[v for k_, v in b.items() if k_ != "self"][0]]
+        if history:
+            # an earlier chain (another grid: another step, another level) met the same increments before
+            it.call(helper, [other, samp, list(counts)], {})
+            state["n"] = 0
         values, incs = it.call(helper, [grid, samp, list(counts)], {})
+        drawn.extend(per_grid["this"][: sum(counts)])
         if mode == "fixed-dates":
             proj = it.get_function(MK + "MCSimulationFixedTimes.project")
             got = as_list(it.call(proj, [values], {}))
@@ -630,14 +676,20 @@ class ChainRunningSum(Lemma):
             vc.check(nm + "::value-at-each-jump-is-the-sum-of-all-states-sampled-so-far", seq_eq(got, running(drawn)))
 
     def replay(self, model, clause, case):
-        mode, counts = case
+        mode, counts = case[0], case[1]
         from rpylib.process.markovchain.markovchain import MCSimulation, MCSimulationFixedTimes
 
         class G:
             origin_coordinate = 0
 
+            def __init__(self, scale=1.0):
+                self.scale = scale
+
             def __getitem__(self, i):
-                return float(i)
+                return self.scale * float(i)
+        if len(case) > 2:
+            seq0 = iter(range(1, 100))
+            MCSimulation.helper_simulate_markov_chain(G(0.5), lambda size: [next(seq0) for _ in range(size)], list(counts))
         seq = iter(range(1, 100))
         samp = lambda size: [next(seq) for _ in range(size)]
         values, incs = MCSimulation.helper_simulate_markov_chain(G(), samp, list(counts))
@@ -655,7 +707,64 @@ class ChainRunningSum(Lemma):
         return (got != want, {"mode": mode, "jumps_per_interval": list(counts), "sampled_state_values": flat, "jump_component": got, "running_sum": want})
 
 
-UNITS = [FixedDatesDirect(), FixedDatesPreComputation(), JumpTimesDirect(), CoupledJumpTimesPath(), CoupledFixedDatesTwoPaths(), CoupledJumpTimesRunningSum(), BuildFinerGrid(), MaxStepPath(), ChainRunningSum()]
+class CopulaChainRunningSum(Lemma):
+    """MCLevyCopulaSimulation.helper_simulate_levy_copula_markov_chain + MCLevyCopulaSimulationFixedTimes.project (real bodies,
+    two underlyings; the sampled states abstract 2-vectors): each underlying's jump component carries the running sum of ALL
+    the state values sampled so far -- across product dates, a date without jump repeating the value before."""
+    prop = "C15"
+    cases = ((2,), (2, 1), (1, 0, 2), (0, 1))
+
+    def __init__(self):
+        self.name = "property:copula-chain-jump-component-is-a-running-sum"
+
+    def prove(self, vc, counts):
+        nm = f"{self.name}[{counts}]"
+        it = vc.interp
+        MCC = "rpylib.process.markovchain.markovchainlevycopula:"
+        n = sum(counts)
+        xs, ys = fresh_list(vc, "X", n + 1), fresh_list(vc, "Y", n + 1)
+        state = {"n": 0}
+
+        def sampling(it_, *a, size=None, **k):
+            idx = list(range(state["n"], state["n"] + int(size)))
+            state["n"] += int(size)
+            return idx
+        it.hooks["rpylib.grid.grid:Grid.__getitem__"] = lambda it_, f, b: np.array([xs[[v for k_, v in b.items() if k_ != "self"][0]], ys[[v for k_, v in b.items() if k_ != "self"][0]]], dtype=object)
+        it.hooks["rpylib.model.levycopulamodel:LevyCopulaModel.dimension"] = lambda it_, f, b: 2
+        grid = vc.obj("rpylib.grid.spatial:CTMCGrid", origin_coordinate=0)
+        smp = vc.obj("rpylib.distribution.sampling:Sampling", sample=it.lib.Model(sampling, "sample"))
+        proc = vc.obj(MCC + "MarkovChainLevyCopula", grid=grid, sampling=smp, model=vc.obj("rpylib.model.levycopulamodel:LevyCopulaModel"))
+        sim = vc.obj(MCC + "MCLevyCopulaSimulationFixedTimes", process=proc, _dimension=2)
+        values, incs = vc.method(sim, "helper_simulate_levy_copula_markov_chain", list(counts))
+        proj = it.get_function(MCC + "MCLevyCopulaSimulationFixedTimes.project")
+        got = np.asarray(it.call(proj, [values, 2], {}), dtype=object)
+        vc.check(nm + "::one-column-per-date-one-row-per-underlying", got.shape == (2, len(counts)))
+        if got.shape != (2, len(counts)):
+            return
+        want_x, want_y, pos, cx, cy = [], [], 0, 0.0, 0.0
+        for c in counts:
+            for j in range(pos, pos + c):
+                cx, cy = cx + xs[j], cy + ys[j]
+            pos += c
+            want_x.append(cx)
+            want_y.append(cy)
+        vc.check(nm + "::value-at-each-date-is-the-sum-of-all-states-sampled-so-far", And(seq_eq(list(got[0]), want_x), seq_eq(list(got[1]), want_y)))
+        # the values handed to the jump-time simulators: one row per jump, the running sums in order
+        rows = [r for v in values for r in np.asarray(v, dtype=object).reshape(-1, 2).tolist()]
+        rx, ry, cx, cy = [], [], 0.0, 0.0
+        for j in range(n):
+            cx, cy = cx + xs[j], cy + ys[j]
+            rx.append(cx)
+            ry.append(cy)
+        vc.check(nm + "::value-at-each-jump-is-the-sum-of-all-states-sampled-so-far", len(rows) == n and And(seq_eq([r[0] for r in rows], rx), seq_eq([r[1] for r in rows], ry)))
+
+    def replay(self, model, clause, counts):
+        r = SimulatorBattery().run("quick", 0)
+        hit = [v for v in r["violations"] if "copula" in v["obligation"]]
+        return (bool(hit), {"simulator_battery_violations": [v["obligation"] for v in hit][:3], "witness": hit[0]["witness"] if hit else {}})
+
+
+UNITS = [FixedDatesDirect(), FixedDatesPreComputation(), JumpTimesDirect(), CoupledJumpTimesPath(), CoupledFixedDatesTwoPaths(), CoupledJumpTimesRunningSum(), BuildFinerGrid(), MaxStepPath(), ChainRunningSum(), CopulaChainRunningSum()]
 def LATE_UNITS():
     # "fine and coarse components stay aligned": which diffusion coefficient each component of the coupled pair uses after a
     # level change is the contract of CouplingMarkovChain.next_level (kept with the coupling, c03)
@@ -750,6 +859,60 @@ class SimulatorBattery:
                                                  "witness": {"simulator": "copula coupling level 1", "epsilon": 0.1, "times": t_[:12].tolist(), "largest_step": float(np.diff(t_).max())}})
             except Exception as e:
                 viol.setdefault("copula", {"obligation": f"{self.name}::copula-simulators-run-with-a-step-cap", "bounded": self.name, "witness": {"exception": f"{type(e).__name__}: {str(e)[:160]}"}})
+            # Levy-copula chain and its coupling on SEVERAL product dates: at every date (fixed dates) / every jump (jump times)
+            # each underlying's jump component is the running sum of ALL the states sampled so far (recorded at the sampler);
+            # the coarse component of the coupling: starts at 0, keeps its value over an interval without jump
+            try:
+                from rpylib.product.underlying import Asian, Discretisation
+                from rpylib.product.payoff import Forward
+                prod_dates = Product(payoff_underlying=Asian(Discretisation.MONTHLY), payoff=Forward(strike=100.0), maturity=0.5)
+
+                def running_sum_audit(tag, process, simulate, fine_of, eps):
+                    record = []
+                    original = process.sampling.sample
+                    process.sampling.sample = lambda size=1: (record.append(original(size=size)), record[-1])[1]
+                    axes, origin = process.grid.axes, process.grid.origin_coordinate.value
+                    try:
+                        for _ in range(25):
+                            del record[:]
+                            pth = simulate()
+                            total, per_date, per_jump = np.zeros(2), [np.zeros(2)], [np.zeros(2)]
+                            for incs in record:
+                                for inc in incs:
+                                    total = total + np.array([axes[k][origin[k] + inc[k]] for k in range(2)])
+                                    per_jump.append(total.copy())
+                                per_date.append(total.copy())
+                            fine = np.asarray(fine_of(pth), float)
+                            want = np.array(per_date).T if eps is None else None
+                            if eps is None:
+                                ok = fine.shape == want.shape and np.allclose(fine, want, atol=1e-12)
+                            else:       # jump times (+ inserted points repeating the previous value): the distinct levels, in order
+                                lv = np.array(per_jump).T
+                                ok = fine.shape[0] == 2 and np.allclose(fine[:, -1], lv[:, -1], atol=1e-12) and all(
+                                    any(np.allclose(fine[:, j], lv[:, i], atol=1e-12) for i in range(lv.shape[1])) for j in range(fine.shape[1]))
+                            if not ok:
+                                viol.setdefault("crun" + tag, {"obligation": f"{self.name}::copula-jump-component-is-the-running-sum-of-all-sampled-states[{tag}]", "bounded": self.name,
+                                                               "witness": {"simulator": tag, "jumps_per_interval": [len(r) for r in record], "jump_component_first_underlying": fine[0][:10].tolist(),
+                                                                           "running_sum_first_underlying": (want[0] if want is not None else lv[0])[:10].tolist()}})
+                                break
+                    finally:
+                        process.sampling.sample = original
+                for eps_ in (None, 0.06):
+                    ev += 1
+                    pc2 = MarkovChainLevyCopula(levy_copula_model=cm, grid=CTMCUniformGrid(h=0.1, model=cm), method=SamplingMethod.INVERSION)
+                    pc2.initialisation(prod_dates, max_step_epsilon=eps_)
+                    pc2.pre_computation(25, prod_dates)
+                    running_sum_audit(f"copula chain, 6 dates, step cap {eps_}", pc2, pc2.simulate_one_path, lambda pth: np.asarray(pth.jump_path), eps_)
+                    ev += 1
+                    cc2 = CouplingProcessLevyCopula(levy_copula_model=cm, grid=CTMCUniformGrid(h=0.2, model=cm), method=SamplingMethod.INVERSION)
+                    cc2.initialisation(prod_dates)
+                    cc2.next_level(25, [type("PM", (), {"update": lambda s, x: None, "deterministic_path": None})()], prod_dates, max_step_epsilon=eps_)
+                    cc2.pre_computation(25, prod_dates)
+                    running_sum_audit(f"copula coupling level 1, 6 dates, step cap {eps_}", cc2.fine_process, cc2.simulate_one_path_with_coupling, lambda pth: np.asarray(pth.jump_path)[0], eps_)
+            except Exception as e:
+                import traceback
+                viol.setdefault("copula-dates", {"obligation": f"{self.name}::copula-simulators-run-on-several-product-dates", "bounded": self.name,
+                                                 "witness": {"exception": f"{type(e).__name__}: {str(e)[:200]}", "where": traceback.format_exc()[-400:]}})
             # every state sampler the factory accepts must drive the coupled simulator (slices of several jumps included)
             for meth in (SamplingMethod.ALIAS, SamplingMethod.TABLE, SamplingMethod.BINARYSEARCHTREE, SamplingMethod.HUFFMANNTREE, SamplingMethod.BINARYSEARCHTREEADAPTED1D):
                 ev += 1
